@@ -1,6 +1,6 @@
 (* C16: the lemmas in the exact shape of the property theorems. *)
 From V Require Import Common.Base C16.Checked C16.Spec C16.Wtf8 C16.Wtf8Proofs C16.Vlq16 C16.Vlq16Proofs
-  C16.CssNum C16.CssNumProofs C16.Pieces C16.PiecesProofs C16.Packet C16.PacketProofs C16.CssIdent C16.CssIdentProofs C16.JsxEntities C16.JsxEntitiesProofs C16.CssLex C16.CssLexProofs.
+  C16.CssNum C16.CssNumProofs C16.Pieces C16.PiecesProofs C16.Packet C16.PacketProofs C16.CssIdent C16.CssIdentProofs C16.JsxEntities C16.JsxEntitiesProofs C16.CssLex C16.CssLexProofs C16.Globstar C16.GlobstarProofs.
 
 Lemma all_bytes_bytes_ok s : all_bytes s <-> bytes_ok s.
 Proof. reflexivity. Qed.
